@@ -54,14 +54,23 @@ Failing(r) ==
   \cup (IF ~InfoOk(r) THEN {Prop \o ".cache_info"} ELSE {})
   \cup (IF "crash" \in DOMAIN r THEN {Prop \o ".no_exception"} ELSE {})
 
-TInit == l = 1 /\ stable = [k \in {} |-> ""] /\ cfg = DefaultCfg /\ TLCSet(1, [n |-> 0, facts |-> 0])
+\* replayed model behaviours (R2) also carry the IDENTITY protocol of the step: whether YarlMem says the call handed out an
+\* already existing (shared) object, and whether the library did.  Sharing is not a contract, so a difference is model
+\* drift (reported in the agreement count), not a violation.
+HasShare(r) == "share" \in DOMAIN r
+ShareAgrees(r) == r.share.model = r.share.real /\ r.share.same
+
+TInit == l = 1 /\ stable = [k \in {} |-> ""] /\ cfg = DefaultCfg /\ TLCSet(1, [n |-> 0, facts |-> 0, modelled |-> 0, agree |-> 0])
 TNext ==
   /\ l <= Len(Recs)
   /\ LET r == Recs[l] f == Failing(r) IN
      /\ IF f = {} THEN TRUE
         ELSE PrintT(<<"VERDICT", r.id, f,
                       {FactsOf(r)[i].k : i \in Contradicts(r)}>>)
-     /\ TLCSet(1, [n |-> TLCGet(1).n + 1, facts |-> TLCGet(1).facts + Len(FactsOf(r))])
+     /\ IF HasShare(r) /\ ~ShareAgrees(r) THEN PrintT(<<"DRIFT", r.id>>) ELSE TRUE
+     /\ TLCSet(1, [n |-> TLCGet(1).n + 1, facts |-> TLCGet(1).facts + Len(FactsOf(r)),
+                   modelled |-> TLCGet(1).modelled + (IF HasShare(r) THEN 1 ELSE 0),
+                   agree |-> TLCGet(1).agree + (IF HasShare(r) /\ ShareAgrees(r) THEN 1 ELSE 0)])
      /\ stable' = Absorb(r)
      /\ cfg' = CfgAfter(r)
   /\ l' = l + 1
